@@ -335,6 +335,17 @@ def check_c12(res, tier, replay):
                 zn = rng.choice([p.split(':')[0] for p in src_spec.split(';')])
                 parts = [p for p in (tgt_spec.split(';') if tgt_spec != '-' else []) if p.split(':')[0] != zn] + [zn + ':z']
                 tgt_spec = ';'.join(sorted(parts))
+            if impl == 'memtz' and rng.random() < 0.7:
+                # the target's last date is the day daylight saving starts (a 23-hour day), the source has the next calendar day
+                zn = rng.choice(names)
+                def put(spec, ds):
+                    parts = [p for p in (spec.split(';') if spec != '-' else []) if p.split(':')[0] != zn] + ['%s:%s' % (zn, ','.join(map(str, ds)))]
+                    return ';'.join(sorted(parts))
+                first = rng.randrange(3, 11)
+                tgt_spec = put(tgt_spec, list(range(first, 12)))
+                src_spec = put(src_spec, list(range(first - rng.randrange(0, 3), 12 + rng.randrange(1, 5))))
+                if assets != '-' and zn not in assets.split(','):
+                    assets = assets + ',' + zn
             cases.append((workers, rng.randrange(0, 30), assets, fs, ft, impl, rng.choice([1, 2, 2, 3]), src_spec, tgt_spec))
     lines = ['y%d SYNC %s' % (i, ' '.join(map(str, c))) for i, c in enumerate(cases)]
     go, model = vlib.run_go(lines), vlib.run_model(lines)
